@@ -19,6 +19,11 @@ NOTE = ('Trusted: CrossHair byte-code interpreter and its str/int/list/dict/re m
 
 # id -> (level text, design ref)
 CLAIMED = {
+    'C02': ('translate_status against the manual table; the three real result reporters on every kind of result with a symbolic '
+            'exit code 0..255 of the action to check; and the chain stub case + symbolic fault plan -> real executor -> real '
+            'standalone Processor.process -> real reporter, whose (exit code, stdout, stderr) must equal the documented table applied '
+            'to the verdict of the documented protocol, in all three output modes; invalid command lines give 64 without identifier.',
+            '4/C02'),
     'C01': ('The real full_execution.execute on test cases of stub instructions + stub actor: for every instruction-count vector in '
             'the catalogue, every step as the site of the first fault with every applicable kind, followed by every later step '
             'failing or a failing cleanup instruction at every position, under every status, the recorded call trace, the '
